@@ -148,33 +148,25 @@ print(json.dumps(out))
 '''
 
 
-def run_seedhist(task, R):
+def seed_machine(config, hashseeds):
+    """fresh-process references per hash seed and the history replayer for one configuration"""
     import os
     import cgsmiles.sample as S
-    S.random = real_random
-    c = c16.CONFIGS[task['config']]
+    c = c16.CONFIGS[config]
     targets = sorted(c['targets'])[-2:]
     verif = os.path.dirname(os.path.dirname(os.path.dirname(os.path.abspath(__file__))))
-    script = REF_SCRIPT % {'verif': verif, 'config': task['config'], 'targets': targets}
-    refs = {}
-    for hs in task['hashseeds']:
-        refs[hs] = own.fresh(script, hs)
-    base = refs[task['hashseeds'][0]]
-    for hs, r in refs.items():
-        inp = {'kind': 'seedhist-ref', 'config': task['config'], 'hashseed': hs}
-        if r != base:
-            diff = [k for k in base if base[k] != r.get(k)]
-            R.record(inp, bad('seed:result-depends-on-PYTHONHASHSEED', None, {'differs_for': diff, 'hashseeds': [task['hashseeds'][0], hs]}))
-        else:
-            R.record(inp, Verdict(outcome='ref-hashseed-%s' % hs))
+    script = REF_SCRIPT % {'verif': verif, 'config': config, 'targets': targets}
+    refs = {hs: own.fresh(script, hs) for hs in hashseeds}
     ops = [('U', s, w) for s in (1, 2) for w in targets] + [('F',), ('N',), ('O',)]
 
     def replay(hist):
-        """fresh objects, handlers replayed; returns list of outputs of U operations"""
+        """fresh objects, operations replayed with the real RNG; returns list of outputs of U operations"""
+        S.random = real_random
         outs = []
         older = c16.make_sampler(c, seed=7)
         real_random.seed(12345)
         for op in hist:
+            op = tuple(op)
             if op[0] == 'U':
                 try:
                     m = c16.make_sampler(c, seed=op[1]).sample(op[2], start_fragment=c['start'])
@@ -191,6 +183,19 @@ def run_seedhist(task, R):
                 except (IndexError, ValueError, OSError, KeyError):
                     pass
         return outs
+    return refs, ops, replay
+
+
+def run_seedhist(task, R):
+    refs, ops, replay = seed_machine(task['config'], task['hashseeds'])
+    base = refs[task['hashseeds'][0]]
+    for hs, r in refs.items():
+        inp = {'kind': 'seedhist-ref', 'config': task['config'], 'hashseed': hs}
+        if r != base:
+            diff = [k for k in base if base[k] != r.get(k)]
+            R.record(inp, bad('seed:result-depends-on-PYTHONHASHSEED', None, {'differs_for': diff, 'hashseeds': [task['hashseeds'][0], hs]}))
+        else:
+            R.record(inp, Verdict(outcome='ref-hashseed-%s' % hs))
     ex = Explorer(dedup=True)
 
     def succ(hist):
@@ -206,13 +211,22 @@ def run_seedhist(task, R):
             R.record(inp, bad('seed:construct-and-sample-not-reproducible', None, {'history': [list(o) for o in hist]}))
         else:
             R.record(inp, Verdict(nontrivial=len(hist) > 1, outcome='hist-ok:%s' % hashlib.md5(want.encode()).hexdigest()[:6]))
-    S.random = real_random
     R.add_explorer(ex)
 
 
 def evaluate(inp):
-    if inp.get('kind') in ('seedhist', 'seedhist-ref'):
-        return Verdict(skip=True, outcome='history replays are run by the explorer (needs fresh-process references)')
+    if inp.get('kind') == 'seedhist-ref':
+        refs, ops, replay = seed_machine(inp['config'], [0, inp['hashseed']])
+        if refs[0] != refs[inp['hashseed']]:
+            return bad('seed:result-depends-on-PYTHONHASHSEED', None, {'hashseeds': [0, inp['hashseed']]})
+        return Verdict(outcome='refs-agree')
+    if inp.get('kind') == 'seedhist':
+        refs, ops, replay = seed_machine(inp['config'], [0])
+        outs = replay(inp['history'])
+        op, got = outs[-1]
+        if got != refs[0]['%d/%s' % (op[1], op[2])]:
+            return bad('seed:construct-and-sample-not-reproducible', None, {'history': inp['history']})
+        return Verdict(outcome='history-ok')
     return c16.evaluate(inp, oracle='c17')
 
 
